@@ -683,7 +683,9 @@ impl Run {
                     let (hid, mark) = self.log[pos];
                     let cmd = ConfigRaftCmd::ConfigAdd {
                         key: s(&op[1]),
-                        value: Arc::new(format!("c{}", pos)),
+                        // every third committed publish repeats the previous content (a no-op publish
+                        // that may still carry a history_table_id mark); same formula in coq/SM/Script.v
+                        value: Arc::new(format!("c{}", if pos % 3 == 2 { pos - 1 } else { pos })),
                         config_type: None,
                         desc: None,
                         history_id: hid,
